@@ -24,6 +24,18 @@ PROPS = {
         "shards": {"quick": 4, "thorough": 16},
         "no_panic": ["read "],
     },
+    "C02": {
+        "modules": ["Capnp.Props.C02"],
+        "gen": True,
+        "rule": "cyclic / self-referential / maximal-count messages x T in {8..2^40} x D in {1..6,62..66} (all 1..66 in thorough), plus the "
+                "valid/mutated/raw message stream of C01: canonical traversal through the public accessors, remaining traversal budget "
+                "compared exactly with the model after every walk; concurrent stream: k in {2..16} goroutines x n derefs on one shared "
+                "message, oracle granted + remaining <= T. Non-trivial: >= 2 words; distinct by hash.",
+        "trusted": COMMON_TRUSTED + ["go2lean translation rules", "sync/atomic Load/CompareAndSwap are atomic (Go memory model)"],
+        "assumptions": ["real stack growth is bounded through the proved depth bound, not measured"],
+        "shards": {"quick": 4, "thorough": 16},
+        "no_panic": ["read "],
+    },
     "C13": {
         "modules": ["Capnp.Props.C13"],
         "gen": False,
